@@ -228,10 +228,11 @@ class Judge:
             return
         env = p.env()
         ad = e3.adaptor_for(p)
-        depth = 2 if ctx.tier == "quick" else 3
+        # thorough: triples (op, op, serialize) only for bodies of at most two items (the universe is 60x larger)
+        depth = 3 if (ctx.tier != "quick" and info.ident.count(";") <= 1) else 2
         nvals = 0
         # cheap pass over EVERY value of the domain: arrays are tuples and do not alias the caller's lists
-        for val in values.enumerate_values(p.node, env, cap=96 if ctx.tier == "quick" else 1024):
+        for val in values.enumerate_values(p.node, env, cap=96 if ctx.tier == "quick" else 256):
             if ref_serialize(env, p.node, val, False)[0] != "bytes":
                 continue
             for deserialized in (False, True):
@@ -247,7 +248,7 @@ class Judge:
                             {"tier": ctx.tier, "index": info.index, "value": _enc(val), "deserialized": deserialized, "history": [list(o) for o in hist]},
                         )
                         return
-        for val in values.rich_values(p.node, env, n=(3 if ctx.tier == "quick" else 6)):
+        for val in values.rich_values(p.node, env, n=(3 if ctx.tier == "quick" else 4)):
             if ref_serialize(env, p.node, val, False)[0] != "bytes":
                 continue
             nvals += 1
